@@ -114,8 +114,9 @@ ValueFails(e) ==    \* the call returned a value: is it what the name denotes?
                           THEN LET p == Pad(a, 5, <<0, 0, 0, 0, 0>>)
                                    ms == IF n = 1 THEN a[1].n ELSE (((p[1] * 24 + p[2]) * 60 + p[3]) * 60 + p[4]) * 1000 + p[5]
                                IN F(r.t = "TimeSpan" /\ e.rms = ms, "TimeSpan construction gives the wrong duration") ELSE F(r.t = "TimeSpan", "TimeSpan does not return a time span"))
+    \* (the calendar-components clause is for hosts without daylight saving: such a zone has hours that do not exist)
     [] f = "date" -> (IF AllInt(a) /\ n = 1 THEN F(r.t = "DateTime" /\ r.k = "int" /\ r.n = a[1].n, "Date(seconds) is not that Unix time")
-                      ELSE IF AllInt(a) /\ n <= 6 /\ a[1].n >= 1971 /\ a[1].n <= 2100 /\ (n < 2 \/ (a[2].n >= 1 /\ a[2].n <= 12)) /\ (n < 3 \/ (a[3].n >= 1 /\ a[3].n <= DaysIn(a[1].n, a[2].n)))
+                      ELSE IF AllInt(a) /\ "hostzone" \notin DOMAIN e /\ n <= 6 /\ a[1].n >= 1971 /\ a[1].n <= 2100 /\ (n < 2 \/ (a[2].n >= 1 /\ a[2].n <= 12)) /\ (n < 3 \/ (a[3].n >= 1 /\ a[3].n <= DaysIn(a[1].n, a[2].n)))
                               /\ (n < 4 \/ (a[4].n >= 0 /\ a[4].n <= 23)) /\ (n < 5 \/ (a[5].n >= 0 /\ a[5].n <= 59)) /\ (n < 6 \/ (a[6].n >= 0 /\ a[6].n <= 59))
                       THEN F(r.t = "DateTime" /\ e.parts = Pad(a, 6, <<0, 1, 1, 0, 0, 0>>), "Date construction gives the wrong calendar components") ELSE F(r.t = "DateTime", "Date does not return a date-time"))
     [] f = "dayofweek" -> (IF a[1].t = "DateTime" /\ Len(e.aparts) = 3 /\ e.aparts[1] >= 1900 /\ e.aparts[1] <= 2200
@@ -160,6 +161,9 @@ FnFails(e) ==
   ELSE IF MustError(e) THEN F(e.outcome = "error", "an inapplicable argument did not yield an error")
   ELSE IF e.outcome = "error" THEN F(MayError(e), "a valid call yielded an error")
   ELSE ValueFails(e)
+    \o F(e.argsame, "the function rewrote the caller's argument list")
+    \o F(e.again = "same", "a second call with the same arguments returns something else after the caller changed the first result in place (results are shared)")
+    \o (IF e.canon = "date" /\ e.hostsec # "none" THEN F(e.r.t = "DateTime" /\ e.r.u = e.hostsec, "Date is not the host calendar's date-time for these components in the host's zone") ELSE "")
     \o (IF e.canon \in {"ticks", "now", "rnd", "random", "null"} THEN ""      \* clock / random / NULL is a keyword of the language
         ELSE F(e.eo = "value" /\ e.er.t = e.r.t /\ e.er.s = e.r.s, "calling the function through an expression gives a different result than calling it directly"))
 
